@@ -40,7 +40,7 @@ class Gen:
             return []
         out = []
         for _ in range(self.rng.choice([1, 1, 2])):
-            args = [self.rng.choice(["a", "b1", "x y", "q,r", "z\"w", "ü", "", "back\\slash"]) for _ in range(self.rng.choice([0, 0, 1, 2]))]
+            args = [self.rng.choice(["a", "b1", "x y", "q,r", "z\"w", "ü", "", "back\\slash", "trailing\\", "\\", "\"", "q\\\"", "\\\\"]) for _ in range(self.rng.choice([0, 0, 1, 2]))]
             out.append(("x::" + self.rng.choice(["one", "two", "struct", "int32"]), args))
         return out
 
